@@ -323,7 +323,10 @@ func lagClass(n, m int) string {
 // it at the filter-header handler's quiescent point. It returns what the
 // filter store must hold now. stop (non-nil once the manager was started)
 // blocks until the manager has stopped and must be called before the stores
-// are closed; it may be called from another goroutine, later.
+// are closed; it may be called from another goroutine, later. Rules starting
+// with "resume/" are this step's own: their shape is the restart state (how far
+// the filter tip is below the block tip, what was asked), not the crash point
+// that left it.
 func ResumeFilterSync(p *chaincfg.Params, b headerfs.BlockHeaderStore, f headerfs.FilterHeaderStore,
 	gotB []wire.BlockHeader, gotF []chainhash.Hash, st *BMStats) (newF []chainhash.Hash, stop func(), rule, what string) {
 
@@ -481,15 +484,15 @@ func ResumeFilterSync(p *chaincfg.Params, b headerfs.BlockHeaderStore, f headerf
 	_, bt, berr := b.ChainTip()
 	switch {
 	case ferr != nil || berr != nil:
-		return gotF, stop, "stores-unreadable-after-resume", fmt.Sprintf("after the restarted block manager ran: filter ChainTip err=%v, block ChainTip err=%v", ferr, berr)
+		return gotF, stop, "resume/stores-unreadable-after-resume", fmt.Sprintf("after the restarted block manager ran: filter ChainTip err=%v, block ChainTip err=%v", ferr, berr)
 	case int(bt) != n:
-		return gotF, stop, "filter-sync-moves-block-tip", fmt.Sprintf("no block was announced to the restarted block manager, yet the block tip moved from %d to %d", n, bt)
+		return gotF, stop, "resume/filter-sync-moves-block-tip", fmt.Sprintf("no block was announced to the restarted block manager, yet the block tip moved from %d to %d", n, bt)
 	case ev == "noprogress":
-		return gotF, stop, "filter-sync-makes-no-progress/lag:" + lag, fmt.Sprintf(
+		return gotF, stop, "resume/filter-sync-makes-no-progress/lag:" + lag, fmt.Sprintf(
 			"restart on block tip %d, filter tip %d with one honest peer and no new block: %d getcfheaders were answered in full from the chain's ground truth and the filter tip is still %d%s",
 			n, m, answered, ft, banned)
 	case int(ft) != n:
-		return gotF, stop, "filter-sync-does-not-resume/" + asked + "/lag:" + lag, fmt.Sprintf(
+		return gotF, stop, "resume/filter-sync-does-not-resume/" + asked + "/lag:" + lag, fmt.Sprintf(
 			"restart on block tip %d, filter tip %d with block headers current, one honest peer connected and no new block: the filter-header handler went to sleep until new block headers arrive with the filter tip at %d (queries it made: %d getcfheaders, %d getcfcheckpt, %d batch requests)%s; only a block that is not coming wakes it",
 			n, m, ft, nCFH, nCkpt, nReqs, banned)
 	}
@@ -498,14 +501,14 @@ func ResumeFilterSync(p *chaincfg.Params, b headerfs.BlockHeaderStore, f headerf
 	for h := 0; h <= n; h++ {
 		fh, err := f.FetchHeaderByHeight(uint32(h))
 		if err != nil {
-			return gotF, stop, "stores-unreadable-after-resume", fmt.Sprintf("filter FetchHeaderByHeight(%d/%d) after the filter-header sync resumed: %v", h, n, err)
+			return gotF, stop, "resume/stores-unreadable-after-resume", fmt.Sprintf("filter FetchHeaderByHeight(%d/%d) after the filter-header sync resumed: %v", h, n, err)
 		}
 		if *fh != s.truth[h] {
 			where := "committed-on-resume"
 			if h <= m {
 				where = "stored-before"
 			}
-			return gotF, stop, "filter-headers-after-resume-differ/" + where, fmt.Sprintf(
+			return gotF, stop, "resume/filter-headers-after-resume-differ/" + where, fmt.Sprintf(
 				"restart on block tip %d, filter tip %d: after the filter-header sync resumed, the filter header at height %d is %v, the chain's is %v", n, m, h, fh, s.truth[h])
 		}
 		newF[h] = *fh
